@@ -1,4 +1,5 @@
-import CalicoVerif.Proofs.C24Srv
+import CalicoVerif.Proofs.C24End
+import CalicoVerif.Proofs.C24Status
 /-!
 C24 — Typha clients converge to the datastore view from any join point.
 
@@ -156,6 +157,120 @@ theorem status_only_on_last_chunk (c : Cache) (ts : Nat)
   unfold publishBreadcrumb
   simp only [h, decide_true, Bool.not_true, Bool.false_and, Bool.false_or, if_true]
   split <;> simp
+
+/-- **A client that is not cut off reads to the end**: with MaxMessageSize > 0 and MinBatchingAgeThreshold > 0
+(what `Config.ApplyDefaults` enforces), for every chain, join point and "how far behind" script, a sender that
+does not disconnect its client walks to the LAST crumb and holds nothing back — no fairness assumption is needed
+beyond "the sender keeps running" (the model runs it until `Next` would block). -/
+theorem reads_to_end (chain : List Crumb) (cfg : SrvCfg) (start : Nat) (lags : List Nat)
+    (hmsg : 0 < cfg.maxMsg) (hage : 0 < cfg.minBatchAge) (hs : start < chain.length) :
+    (sendDeltas chain cfg start lags).disconnected = false →
+      (sendDeltas chain cfg start lags).pos + 1 = chain.length ∧ (sendDeltas chain cfg start lags).held = [] :=
+  sendDeltas_reads_to_end chain cfg start lags hmsg hage hs
+
+/-- **Convergence to the server's CURRENT view**: a client that joined at any crumb and is not disconnected ends
+up with exactly the snapshot of the cache's current breadcrumb — unconditionally (no "nothing held" premise). -/
+theorem client_converges_to_current (b : Nat) (ops : List CacheOp) (start m : Nat) (cfg : SrvCfg) (lags : List Nat)
+    (c : Crumb) (hmsg : 0 < cfg.maxMsg) (hage : 0 < cfg.minBatchAge) :
+    let cache := (Cache.new b).run ops
+    let r := sendDeltas cache.chain cfg start lags
+    cache.chain[start]? = some c → r.disconnected = false →
+      clientView (clientView emptyView (snapshotMsgs c m)) r.msgs = asMap cache.cur.kvs := by
+  intro cache r hc hd
+  have hlt : start < cache.chain.length := by
+    rcases Nat.lt_or_ge start cache.chain.length with h | h
+    · exact h
+    · rw [List.getElem?_eq_none h] at hc; cases hc
+  obtain ⟨hpos, hheld⟩ := sendDeltas_reads_to_end cache.chain cfg start lags hmsg hage hlt hd
+  have hlen : cache.chain.length = cache.older.length + 1 := by simp [Cache.chain]
+  have hlast : (sendDeltas cache.chain cfg start lags).pos = cache.older.length := by omega
+  have hcv := client_converges b ops start m cfg lags c hc hd hheld
+  refine hcv.trans ?_
+  show viewAt cache.chain (sendDeltas cache.chain cfg start lags).pos = _
+  rw [hlast]
+  simp [viewAt, Cache.chain]
+
+/-! ### cache side: status never precedes its updates -/
+
+theorem storePending_maxBatch (c : Cache) (o : In) : (storePending c o).1.maxBatch = c.maxBatch := by
+  cases o <;> rfl
+
+theorem batchLoop_maxBatch (c : Cache) (n : Nat) (q : List In) : (batchLoop c n q).1.maxBatch = c.maxBatch := by
+  induction q generalizing c n with
+  | nil => rfl
+  | cons o q ih =>
+    unfold batchLoop
+    split
+    · rw [ih, storePending_maxBatch]
+    · rfl
+
+theorem fillBatch_maxBatch (c : Cache) : (fillBatch c).maxBatch = c.maxBatch := by
+  unfold fillBatch
+  split
+  · rfl
+  · show (batchLoop _ _ _).1.maxBatch = _
+    rw [batchLoop_maxBatch, storePending_maxBatch]
+
+/-- **In-sync is never attached too early by the cache**: one iteration of `Cache.loop` on any cache satisfying the
+invariant.  `b = fillBatch c` holds the updates (`b.pendingUpdates`) and the last status (`b.pendingStatus`)
+consumed from the syncer in this iteration.  After publishing:
+nothing is left pending; the current crumb's snapshot is (value-wise) the previous tree with EVERY consumed
+update applied; every other crumb minted in this iteration still carries the status from before the iteration;
+so a status change (e.g. to InSync) is only ever announced on a crumb that already contains all updates the
+syncer sent before that status. -/
+theorem status_never_precedes_updates (c : Cache) (h : CacheInv c) (hmb : 0 < c.maxBatch) (ts : Nat) :
+    let b := fillBatch c
+    let c' := loopOnce c ts
+    c'.pendingUpdates = [] ∧
+    vmap c'.cur.kvs = vfold (vmap b.kvs) b.pendingUpdates ∧
+    (∀ x ∈ c'.older, x ∈ b.older ∨ x.status = b.cur.status) ∧
+    (c'.cur.status ≠ b.cur.status → c'.cur.status = b.pendingStatus) :=
+  publishBreadcrumbs_status h.fillBatch (by rw [fillBatch_maxBatch]; exact hmb) ts
+
+theorem publishBreadcrumb_maxBatch (c : Cache) (ts : Nat) : (publishBreadcrumb c ts).maxBatch = c.maxBatch := by
+  unfold publishBreadcrumb
+  simp only
+  repeat' split
+  all_goals rfl
+
+/-- Every reachable cache satisfies the hypotheses of `status_never_precedes_updates`. -/
+theorem reachable_cache_ok (bsz : Nat) (ops : List CacheOp) :
+    CacheInv ((Cache.new bsz).run ops) ∧ 0 < ((Cache.new bsz).run ops).maxBatch := by
+  refine ⟨(CacheInv.new bsz).run ops, ?_⟩
+  have h0 : 0 < (Cache.new bsz).maxBatch := by
+    simp only [Cache.new]; split <;> omega
+  have : ∀ (ops : List CacheOp) (c : Cache), 0 < c.maxBatch → 0 < (c.run ops).maxBatch := by
+    intro ops
+    induction ops with
+    | nil => intro c h; exact h
+    | cons op ops ih =>
+      intro c h
+      apply ih
+      cases op with
+      | push o =>
+        simp only [Cache.stepOp, push]
+        split <;> exact h
+      | loop ts =>
+        simp only [Cache.stepOp]
+        split
+        · exact h
+        · -- publishBreadcrumbs keeps maxBatch
+          have hb : 0 < (fillBatch c).maxBatch := by rw [fillBatch_maxBatch]; exact h
+          have : (loopOnce c ts).maxBatch = (fillBatch c).maxBatch := by
+            unfold loopOnce publishBreadcrumbs
+            have key : ∀ (fuel : Nat) (x : Cache) (t : Nat), (publishRest x t fuel).maxBatch = x.maxBatch := by
+              intro fuel
+              induction fuel with
+              | zero => intro x t; rfl
+              | succ n ihn =>
+                intro x t
+                unfold publishRest
+                split
+                · rfl
+                · rw [ihn, publishBreadcrumb_maxBatch]
+            rw [key, publishBreadcrumb_maxBatch]
+          rw [this]; exact hb
+  exact this ops _ h0
 
 /-! ### non-vacuity -/
 
